@@ -67,6 +67,41 @@ Proof. intros E. unfold back_tokb. rewrite E. cbn [field_tok]. rewrite Hfix. app
 Lemma back_tokb_nan j : readback j nt = CNaN -> back_tokb j nt = true.
 Proof. intros E. unfold back_tokb. rewrite E. cbn [field_tok]. apply ws_str_eqb_refl. Qed.
 
+(* ---- back_okb from the oracle hypothesis Hfix and the NULL rule --------------------------------- *)
+(* a cell whose printed token comes back as the same kind of cell: a number as that number (it is
+   not read as NaN and, outside the index column, does not equal NULL), NaN as NaN (the NULL
+   text equals NULL; not in the index column, where the NULL rule does not apply) *)
+Definition cell_backb (j : nat) (cl : cell) : bool :=
+  match cl with
+  | CNum t => match readback j (fmtv (col_fmt o j) t) with CNum t' => str_eqb t' (fmtv (col_fmt o j) t) | _ => false end
+  | CNaN => match readback j nt with CNaN => true | _ => false end
+  | CStr _ => false
+  end.
+Fixpoint row_backb (j : nat) (row : list cell) : bool :=
+  match row with [] => true | cl :: r => cell_backb j cl && row_backb (S j) r end.
+
+Lemma row_backb_toks (Hfix : forall f t, fmtv f (fmtv f t) = fmtv f t) : forall row j,
+  row_backb j row = true -> back_rowb j (row_toks_from fmtv o nt j row) = true.
+Proof.
+  induction row as [|cl row IH]; intros j H; [reflexivity|]. cbn [row_backb] in H.
+  apply andb_true_iff in H as [H1 H2]. cbn [row_toks_from back_rowb]. rewrite (IH (S j) H2), andb_true_r.
+  destruct cl as [t| |s]; cbn [cell_backb field_tok] in *.
+  - destruct (readback j (fmtv (col_fmt o j) t)) as [t'| |s'] eqn:E; try discriminate.
+    apply ws_str_eqb_eq in H1. subst t'. apply (back_tokb_num Hfix j t E).
+  - destruct (readback j nt) eqn:E; try discriminate. apply (back_tokb_nan j E).
+  - discriminate.
+Qed.
+
+(* C11 step 2: under Hfix, rows whose cells come back as the same kind of cell print, after one
+   read, the same tokens *)
+Theorem back_okb_of_Hfix (Hfix : forall f t, fmtv f (fmtv f t) = fmtv f t) rows :
+  forallb (row_backb 0) rows = true -> back_okb (tok_matrix fmtv o nt rows) = true.
+Proof.
+  intros H. unfold back_okb, tok_matrix. apply forallb_forall. intros toks Hin.
+  apply in_map_iff in Hin as (row & <- & Hrow). rewrite forallb_forall in H.
+  apply (row_backb_toks Hfix row 0%nat). apply H. exact Hrow.
+Qed.
+
 Variable c : nat.
 Variable T : list (list (list N)).
 Hypothesis Hc : (0 < c)%nat.
